@@ -193,6 +193,31 @@ class VC:
             runs = bool(e_val) and header not in r1 and not (set(self.oks) & r1)
             _f(out, "C16.R4", runs, self.id, "registered validator can be skipped", "when a validator is registered for the key, the iteration can complete without the validator having run and returned Ok", L1["ln"], self.file,
                desc="with a validator: iteration completes only through the validator's success edge")
+        if ok:
+            # C16.R6: for a key that has a validator nothing but that validator (and the serialisation of the expectation) can fail the
+            # iteration: a presence / equality test applied to such a key refuses tokens the validator accepts (the default exp / nbf
+            # validators accept an absent claim)
+            _oks, errs, _dele = S.ok_exits(v)
+            pre = v.cfg.reachable_without(edges=[has_true, has_false], blocks=[header], start=body)
+            side = v.cfg.reachable_without(blocks=[header], start=has_true[1])
+            vtargets = set(t["target"] for _bi, t in vcalls)
+            explained = set()
+            for s_ in M.try_sites(v):
+                if s_["branch_block"] not in reg:
+                    continue
+                op = N.norm(s_["operand"])
+                is_val = s_["branch_block"] in vtargets
+                is_ser = op.op == "call" and bool(re.search(r"^serde_json::value::to_value", op.meta.get("tdef", "")))
+                if is_val or is_ser:
+                    explained |= set(v.cfg.reachable_without(blocks=[header], start=s_["brk"]))
+            bad_err = sorted(e for e in errs if e in (pre | side) and e not in explained)
+
+            def errline(bb):
+                sts = v.body["blocks"][bb]["stmts"]
+                return sts[0]["ln"] if sts else v.line(bb)
+            _f(out, "C16.R6", not bad_err, self.id, "a key with a validator is also subjected to another test" if bad_err else "only the validator decides for its key",
+               "when a validator is registered for the key, the iteration can fail for a reason other than the validator's verdict (error exit at line %s): tokens the validator accepts - e.g. without the claim - would be refused" % (errline(bad_err[0]) if bad_err else "?"),
+               errline(bad_err[0]) if bad_err else L1["ln"], self.file, desc="with a validator: the only failure of the iteration is the validator's Err (or serialising the expectation)")
         # C15.R2: without validator: not-null edge and equal edge
         start = has_false[1] if has_false else body
         e_nn = []
@@ -289,6 +314,16 @@ class VC:
             ok = bool(e_val2) and L2["next"] not in r and not (set(self.oks) & r)
             _f(out, "C16.R4", ok, self.id, "validator-only loop can skip a validator", "a validator whose key has no expected claim must run (and return Ok) before the parse succeeds", L2["ln"], self.file,
                desc="validator-only loop: each validator runs unless its key has an expected claim (handled by the first loop)")
+            # exactly once: the two loops hold the only invocation sites (one each, visiting disjoint key sets); a further site - a pre-pass
+            # over selected keys, a retry - runs some validator a second time
+            allv = self.validator_calls(set(v.cfg.reach))
+            elsewhere = [(bi, t) for bi, t in allv if bi not in reg and bi not in reg2]
+            n1 = len([1 for bi, t in allv if bi in reg])
+            n2 = len([1 for bi, t in allv if bi in reg2 and bi not in reg])
+            once = not elsewhere and n1 == 1 and n2 == 1
+            _f(out, "C16.R4", once, self.id, "validator invoked at a further site" if elsewhere else "validator invocation sites",
+               "a validator must run exactly once per parse: expected one invocation site in each of the two loops and none elsewhere; found %d / %d and %d elsewhere (line %s)" % (n1, n2, len(elsewhere), elsewhere[0][1]["ln"] if elsewhere else "-"),
+               elsewhere[0][1]["ln"] if elsewhere else L2["ln"], self.file, desc="validators are invoked at exactly two sites: one per loop, over disjoint key sets")
             okx = v.cfg.must_pass(self.oks, edges=[(L2["switch"], L2["none"])])
             _f(out, "C16.R4", okx, self.id, "success only after all validators were visited", "an Ok return is reachable without exhausting the loop over self.claim_validators", L2["ln"], self.file, desc="Ok only through the second iterator's None edge")
 
